@@ -42,6 +42,7 @@ import (
 	"github.com/dadrus/heimdall/internal/rules/mechanisms/values"
 	"github.com/dadrus/heimdall/internal/x"
 	"github.com/dadrus/heimdall/internal/x/errorchain"
+	"github.com/dadrus/heimdall/internal/x/hashx"
 	"github.com/dadrus/heimdall/internal/x/stringx"
 )
 
@@ -363,8 +364,8 @@ func (a *remoteAuthorizer) calculateCacheKey(sub *subject.Subject, values map[st
 	slices.Sort(valueNames)
 
 	for _, k := range valueNames {
-		hash.Write(stringx.ToBytes(k))
-		hash.Write(stringx.ToBytes(values[k]))
+		// names and values must not run into each other
+		hashx.WriteStrings(hash, k, values[k])
 	}
 
 	return hex.EncodeToString(hash.Sum(nil))
